@@ -456,6 +456,9 @@ def _accessors(s, op, aux):
                (lambda x: isinstance(x, (bytes, bytearray)) and bytes(x) == data)
     if k == 'string':
         n = len(op['v'].encode('utf-8'))
+        if n and s.remaining_bits == 8 * n and len(op['v']) % 2:
+            # the text is all that remains: read with the default length ("the rest") - the same text, nothing left unread
+            return (lambda: s.preload_string()), (lambda: s.load_string()), (lambda x: x == op['v'])
         return (lambda: s.preload_string(n)), (lambda: s.load_string(n)), (lambda x: x == op['v'])
     if k == 'snake':
         data = bytes.fromhex(op['v'])
